@@ -236,6 +236,72 @@ def run(ctx):
                 if fmt == "ndbc_ascii":
                     key["directional"] = case["dir"] is not None or bool(case.get("directional"))
                 ctx.violation(key, "read_%s [%s]: %s" % (fmt, case.get("label", ""), fails[0][:300]), {"fmt": fmt, "seed": seed, "all": [f[:200] for f in fails[:4]]})
+        # ---- the multi-file SWAN readers on the same encoded files: read_swans (one cycle) must return what read_swan returns;
+        # read_swanow concatenates cycles in time and keeps the overlapping dates of the most recent file
+        from wavespectra.input.swan import read_swans, read_swanow
+        import copy
+        for i in range(8 if ctx.quick else 80):
+            seed = "multi-%d-%d" % (ctx.seed, i)
+            crng = random.Random(seed)
+            case = I.random_case("swan", crng, ntimes=3, nloc=crng.choice((1, 2, 3)), time=True, shuffle=(i % 2 == 0), blocks=crng.choice(("FACTOR", "mixed")))
+            d = os.path.join(tmp, "m%d" % i)
+            os.makedirs(d)
+            path = I.encode(case, d)
+            exp = I.expected(case)
+            ctx.case(("read_swans", seed), True)
+            try:
+                fails, _ = I.compare(read_swans([path], int_freq=False, int_dir=False).load(), exp)
+            except Exception as ex:  # noqa
+                fails = ["reader raised %s: %s" % (type(ex).__name__, str(ex)[:150])]
+            if fails:
+                ctx.violation({"format": "swan", "variant": "read_swans", "clause": classify(fails[0]), "shuffled": i % 2 == 0},
+                              "read_swans [%s]: %s" % (case.get("label", ""), fails[0][:300]), {"seed": seed})
+            else:
+                ctx.replayed()
+            # two cycles sharing their last / first date with different spectra (data blocks only: whether a MISSING spectrum of the
+            # newer cycle should hide the older one's is not something the property says)
+            if any(isinstance(f, str) for row in case["fac"] for f in row):
+                case = I.random_case("swan", crng, ntimes=3, nloc=crng.choice((1, 2)), time=True, shuffle=False, blocks="FACTOR")
+            a = copy.deepcopy(case)
+            order = np.argsort(np.array(a["times"]).astype("datetime64[s]").astype("int64"))
+            ts = [a["times"][k] for k in order]
+            b = copy.deepcopy(case)
+            b["times"] = [ts[-1], ts[-1] + np.timedelta64(3600, "s"), ts[-1] + np.timedelta64(7200, "s")]
+            b["E"] = np.asarray(b["E"])[::-1].copy()          # other spectra at the shared date
+            b["fac"] = list(b["fac"])[::-1]
+            d2 = os.path.join(tmp, "n%d" % i)
+            os.makedirs(os.path.join(d2, "a"))
+            os.makedirs(os.path.join(d2, "b"))
+            pa, pb = I.encode(a, os.path.join(d2, "a")), I.encode(b, os.path.join(d2, "b"))
+            os.rename(pa, os.path.join(d2, "20200101_00z.spec"))
+            os.rename(pb, os.path.join(d2, "20200101_06z.spec"))
+            ea, eb = I.expected(a), I.expected(b)
+            ctx.case(("read_swanow", seed), True)
+            try:
+                got = read_swanow(os.path.join(d2, "*.spec")).load()
+                t = got.time.values.astype("datetime64[s]")
+                want_t = np.unique(np.concatenate([ea["time"], eb["time"]]))
+                probs = []
+                if not np.array_equal(t, want_t):
+                    probs.append("times %s, expected the sorted union %s" % (t, want_t))
+                else:
+                    for e_ in (ea, eb):            # the newer file is checked last: its spectra must be the ones at the shared date
+                        sub = got.sel(time=e_["time"])
+                        f2, _ = I.compare(sub, e_)
+                        if e_ is eb and f2:
+                            probs.append("spectra of the most recent file not returned on its dates: %s" % f2[0][:200])
+                        elif e_ is ea:
+                            keep = ~np.isin(e_["time"], eb["time"])
+                            f3, _ = I.compare(got.sel(time=e_["time"][keep]), dict(e_, time=e_["time"][keep], efth=np.asarray(e_["efth"])[keep]))
+                            if f3:
+                                probs.append("spectra of the older file not returned on its own dates: %s" % f3[0][:200])
+            except Exception as ex:  # noqa
+                probs = ["reader raised %s: %s" % (type(ex).__name__, str(ex)[:150])]
+            if probs:
+                ctx.violation({"format": "swan", "variant": "read_swanow", "clause": "overlap" if "most recent" in probs[0] else classify(probs[0])},
+                              "read_swanow on two overlapping cycles: %s" % probs[0][:300], {"seed": seed})
+            else:
+                ctx.replayed()
     finally:
         shutil.rmtree(tmp, ignore_errors=True)
     # vendor samples decoded independently
